@@ -264,6 +264,7 @@ func checkC11(c *Ctx) {
 	checkC11AllParents(c)
 	checkC11JoinNull(c)
 	checkC11KeyVerbatim(c)
+	checkC11UnscopedNested(c)
 
 	// ---- key-func ----
 	rf := c.Rule("C11.key-func", "identity maps are written and read through one key function", 4)
